@@ -19,6 +19,7 @@ from .. import exprs as E
 from .. import gen, leanio, pymodel
 from ..runner import CaseTimeout, time_limit
 from .common import build_both, compare_errors, fl, mpf, mpf_s, net_oracle
+from . import stoch_common as SC
 
 PROP = "C10"
 LEAN = {"module": "Pygom.Props.C10", "extra_modules": ["Pygom.Props.C10Link"],
@@ -29,9 +30,19 @@ LEAN = {"module": "Pygom.Props.C10", "extra_modules": ["Pygom.Props.C10Link"],
                      "Pygom.C10.step_sum_const", "Pygom.C10.path_sum_const"]}
 BUDGET = {"quick": {"models": 90, "runs": 2}, "thorough": {"models": 1500, "runs": 4}}
 RULE = ("transition-only models (2-5 states, 1-5 events of 1-3 T transitions, all rate kinds incl. time-periodic; a third with symbolic "
-        "magnitudes (ODE part only), the rest integer magnitudes 1-3 also simulated: exact, adaptive tau, fixed tau, gridded exact); "
+        "magnitudes (ODE part only), the rest integer magnitudes 1-3 also simulated in a session of six calls on the one instance, in "
+        "random order: {exact, adaptive tau, fixed tau} x {raw, gridded}, 2-4 paths each; before each call the initial state is "
+        "re-assigned as int / int32 / float64 ndarray, list or tuple of ints or floats (integer forms preferred for gridded tau-leap), "
+        "t0 as numpy float64 / int64 / float32, the time argument as float / int / numpy scalar / one-element list or tuple, or a "
+        "list / tuple / array grid of float or int dtype (some starting after t0, some extending 10x past the horizon); a third of the "
+        "calls on a population scaled by 20; exact calls keep whatever pre_tau the previous call left; with and without full_output; "
+        "row sums of every returned array are taken after the call AND again after all later calls; the caller's arrays and "
+        "model.initial_state are compared with the harness's own copies (a side effect there is a tag and a broken correspondence, "
+        "not a violation: C10 states totals); "
         "non-trivial = at least one event fired in some path or a non-zero ODE component")
 ASSUMPTIONS = ["deterministic conservation is checked to 1e-6 relative (scipy odeint tolerance assumed)",
+               "gridded tau-leap rows are float interpolations of integer records, column by column: their sum is compared to 1e-9 relative "
+               "(rounding of the interpolation is ~1e-16); raw paths and gridded exact rows are compared exactly",
                "numpy's generator only supplies the draws; conservation must hold for every draw list (proved)"]
 TRUSTED = ["harness generator / interpreter", "Lean driver JSON codec"]
 
@@ -120,23 +131,38 @@ def run_case(case):
         tags.append("integration_failed:%s" % type(exc).__name__)
     if case["sym"]:
         return {"nontrivial": nontrivial, "mismatches": mism, "violations": viol, "tags": tags, "sample": {"spec": spec}}
-    # 3. stochastic paths keep the total exactly
+    # 3. stochastic paths keep the total exactly: a SESSION of calls on this one instance (see stoch_plan).  The Lean statement
+    #    (`stoch_path_sum_const_model`) is about one path as a pure function of (x0, V, counts); here every mode, raw and gridded,
+    #    every form / dtype of x0 and of the time argument, left-over pre_tau, and all returned arrays summed AGAIN at the end.
     Vm = np.asarray(model.vMat(x0, 0.0), float).reshape(nS, nE)
     if not np.all(Vm == np.round(Vm)):
         mism.append({"what": "vMat not integer for integer magnitudes", "detail": str(Vm.tolist())})
         return {"nontrivial": nontrivial, "mismatches": mism, "violations": viol, "tags": tags}
     cols = [[int(Vm[i, j]) for i in range(nS)] for j in range(nE)]
-    x0i = np.array(case["x0"], dtype=float if case["float_x0"] else int)
-    total = int(sum(case["x0"]))
-    modes = [("exact", True, None), ("tau_adaptive", False, None), ("tau_fixed", False, case["pre_tau"] or 0.1)]
+    import copy
     fired = 0
-    for name, exact, pre_tau in modes:
-        model.initial_values = (x0i.copy(), np.float64(0))
-        model.pre_tau = pre_tau
-        np.random.seed(case["seed"])
+    kept = []          # (label, returned arrays themselves, total they must keep, tolerance)
+    handed = []        # (label, object handed to pygom, the harness's copy)
+    for k, st in enumerate(stoch_plan(case, T)):
+        name = st["mode"] + (":gridded" if st["grid"] else ":raw")
+        xs = [int(v) * st["scale"] for v in case["x0"]]
+        total = int(sum(xs))
+        x0_arg = SC.make_x0(xs, st["x0_form"])
+        handed.append(("x0 of call %d (%s)" % (k, st["x0_form"]), x0_arg, copy.deepcopy(x0_arg)))
+        model.initial_values = (x0_arg, SC.make_t0(0.0, st["t0_form"]))
+        if st["mode"] == "tau_fixed":
+            model.pre_tau = st["pre_tau"]
+        elif st["mode"] == "tau_adaptive":
+            model.pre_tau = None
+        elif model.pre_tau is not None:
+            tags.append("exact_with_leftover_pre_tau")      # exact=True: whatever pre_tau an earlier call left behind stays
+        exact = st["mode"] == "exact"
+        t_arg = SC.time_obj(st["time"])
+        handed.append(("time argument of call %d (%s)" % (k, st["time"]["kind"]), t_arg, copy.deepcopy(t_arg)))
+        np.random.seed(st["seed"])
         try:
             with quiet(), time_limit(8):
-                X, J, Tm = model.solve_stochast(T, case["runs"], exact=exact, full_output=True)
+                out = model.solve_stochast(t_arg, case["runs"], exact=exact, full_output=st["full_output"])
         except CaseTimeout:
             # adaptive tau can shrink without bound near extinction (termination is a probability-one
             # statement, see C04 path_exit_partial); a slow run is not a conservation verdict
@@ -146,36 +172,108 @@ def run_case(case):
             # a crash yields no path to judge; legality of paths / limits / gridding are C04, C11, C15
             tags.append("raised:%s:%s" % (name, type(exc).__name__))
             continue
-        for Xr, Jr in zip(X, J):
-            Xr = np.asarray(Xr, float)
-            sums = Xr.sum(axis=1)
-            fired += len(Jr)
-            if not np.all(sums == total):
-                viol.append({"what": "stochastic path (%s) does not keep the total exactly" % name, "signature": "path-sum:%s" % name,
-                             "detail": "sums=%s total=%s" % (sums.tolist()[:20], total)})
+        X, J = (out[0], out[1]) if st["full_output"] else (out, None)
+        gridded_tau = st["grid"] and not exact
+        # interpolated rows (tau-leap on a grid) are sums of separately rounded float interpolations: 1e-9 relative; else exact
+        tol = 1e-9 * (1.0 + total) if gridded_tau else 0.0
+        sig = "path-sum:%s" % ("gridded" if (st["grid"] and exact) else "gridded-tau" if st["grid"] else st["mode"])
+        where = "call %d: %s, x0 %s handed over as %s, time as %s, %s" % (k, name, xs, st["x0_form"], st["time"]["kind"], "full_output" if st["full_output"] else "states only")
+        kept.append((where, sig, list(X), total, tol, [np.array(np.asarray(Xr, float), copy=True) for Xr in X]))
+        for p, Xr in enumerate(X):
+            Xa = np.asarray(Xr, float)
+            sums = Xa.sum(axis=1)
+            if not st["grid"] and J is not None:
+                fired += len(J[p])
+            elif st["grid"] and len(Xa) and np.any(Xa != Xa[0]):
+                fired += 1
+            if Xa.ndim != 2 or Xa.shape[1] != nS or np.any(np.abs(sums - total) > tol):
+                viol.append({"what": "stochastic path (%s) does not keep the total%s" % (name, "" if gridded_tau else " exactly"), "signature": sig,
+                             "detail": "%s, path %d: sums=%s total=%s" % (where, p, sums.tolist()[:20], total)})
                 break
+            if not st["grid"] and not np.array_equal(Xa[0], np.array(xs, float)):
+                # not what C10 states (the total is judged above, against the total of the ASSIGNED state); the model's path
+                # starts at the assigned state: a broken correspondence
+                tags.append("side_effect:path-start")
+                mism.append({"what": "pure-model:path-start", "detail": "%s, path %d: first record %s" % (where, p, Xa[0].tolist())})
             # the real path is the model's path for the same counts
-            if len(Jr) and np.all(Xr == np.round(Xr)):
-                steps = [[int(round(float(np.asarray(c).ravel()[0]))) for c in row] for row in Jr]
-                resp = leanio.driver().call({"op": "apply_counts", "x0": [int(v) for v in Xr[0]], "cols": cols, "steps": steps})
-                if resp["path"] != [[int(v) for v in row] for row in Xr]:
+            if not st["grid"] and J is not None and len(J[p]) and np.all(Xa == np.round(Xa)):
+                steps = [[int(round(float(np.asarray(c).ravel()[0]))) for c in row] for row in J[p]]
+                resp = leanio.driver().call({"op": "apply_counts", "x0": [int(v) for v in Xa[0]], "cols": cols, "steps": steps})
+                if resp["path"] != [[int(v) for v in row] for row in Xa]:
                     mism.append({"what": "path != applyCounts(x0, V, counts) (%s)" % name,
-                                 "detail": "real %s model %s" % (Xr.tolist()[:6], resp["path"][:6])})
-        tags.append("mode:" + name)
-    # gridded exact
-    model.initial_values = (x0i.copy(), np.float64(0)); model.pre_tau = None
-    np.random.seed(case["seed"] + 1)
-    try:
-        with quiet():
-            Xg = model.solve_stochast(np.linspace(0, T, 7), 1, exact=True, full_output=False)
-        sums = np.asarray(Xg[0], float).sum(axis=1)
-        if not np.all(sums == total):
-            viol.append({"what": "gridded exact path does not keep the total", "signature": "path-sum:gridded", "detail": str(sums.tolist())})
-        tags.append("mode:gridded")
-    except Exception as exc:
-        tags.append("raised:gridded:%s" % type(exc).__name__)
+                                 "detail": "real %s model %s" % (Xa.tolist()[:6], resp["path"][:6])})
+        tags += ["mode:" + ("gridded" if (st["grid"] and exact) else "gridded-tau:" + st["mode"] if st["grid"] else st["mode"]),
+                 "x0_form:" + st["x0_form"], "time:" + st["time"]["kind"]]
+        if st["scale"] > 1: tags.append("large_population")
+        # what the caller handed over and what the model holds are what they were
+        # (side effects the pure model excludes but C10 does not state: tag + broken correspondence, never a violation)
+        for label, obj, snap in handed:
+            if not SC._same_obj(obj, snap):
+                tags.append("side_effect:caller-argument-modified")
+                mism.append({"what": "pure-model:caller-argument-modified",
+                             "detail": "%s: %s now %s, was %s" % (where, label, np.asarray(obj).tolist(), np.asarray(snap).tolist())})
+                handed = [h for h in handed if h[1] is not obj]
+                break
+        held = np.asarray(model.initial_state, float).ravel()
+        if not np.array_equal(held, np.array(xs, float)):
+            tags.append("side_effect:initial-state-modified")
+            mism.append({"what": "pure-model:initial-state-modified", "detail": "%s: model.initial_state=%s" % (where, held.tolist())})
+    # every path of every call, again, after all the calls that followed
+    for where, sig, X, total, tol, then in kept:
+        for p, Xr in enumerate(X):
+            now = np.asarray(Xr, float)
+            if now.shape != then[p].shape or not np.array_equal(now, then[p]):
+                sums = now.sum(axis=1) if now.ndim == 2 else now
+                viol.append({"what": "a path returned by an earlier call was changed by later calls on the model", "signature": sig + ":kept",
+                             "detail": "%s, path %d: sums now %s (total %s), first rows then %s now %s" % (where, p, sums.tolist()[:20], total, then[p][:2].tolist(), now[:2].tolist())})
+                break
     if fired > 0:
         nontrivial = True
         tags.append("events_fired")
     return {"nontrivial": nontrivial, "mismatches": mism, "violations": viol, "tags": tags,
             "sample": {"spec": spec, "x0": case["x0"], "theta": case["theta"]}}
+
+
+def stoch_plan(case, T):
+    """the calls of the stochastic session of a case: determined by the case (its own generator seeded by case["seed"]), so a
+    replay reproduces them.  Each mode raw and gridded, in random order; x0 / t0 / time argument in a random form each time;
+    a third of the calls on a population scaled by 20 (tau-leap paths without any first-reaction retry stay all-integer)."""
+    if case.get("plan"):
+        return [dict(st) for st in case["plan"]]        # a stored (corpus) case may spell its calls out
+    r = random.Random(case["seed"] ^ 0x5DEECE66D)
+    nS = len(case["x0"])
+    forms = [f for f in SC.X0_FORMS if f != "scalar"]
+    float_first = bool(case.get("float_x0"))
+    plan = []
+    for mode in ("exact", "tau_adaptive", "tau_fixed"):
+        for grid in (False, True):
+            plan.append({"mode": mode, "grid": grid})
+    r.shuffle(plan)
+    if case.get("calls"):
+        plan = plan[:case["calls"]]
+    for k, st in enumerate(plan):
+        st["x0_form"] = r.choice(forms)
+        if st["grid"] and st["mode"] != "exact" and r.random() < 0.6:
+            st["x0_form"] = r.choice(["arr_int", "list_int", "tuple_int", "arr_i32"])      # all-integer paths are where a dtype slip shows
+        st["t0_form"] = r.choice(["np_f64", "np_f64", "np_i64", "np_f32"])
+        st["scale"] = 20 if r.random() < 0.35 else 1
+        Tk = T / st["scale"]            # rates of the generated kinds grow at most ~ quadratically: keep the expected work comparable
+        st["pre_tau"] = (case.get("pre_tau") or 0.1) / st["scale"]
+        st["seed"] = r.randrange(2 ** 31)
+        st["full_output"] = True if not st["grid"] else r.random() < 0.5
+        if st["grid"]:
+            if Tk >= 0.5 and r.random() < 0.3:
+                hi = max(1, int(np.ceil(Tk)))
+                vals = sorted(set([0, hi] + [r.randint(0, hi) for _ in range(3)]))
+                st["time"] = {"kind": r.choice(["list_int", "tuple_int", "array_int"]), "values": [float(v) for v in vals]}
+            else:
+                n = r.randint(3, 9)
+                vals = [Tk * i / (n - 1) for i in range(n)]
+                if r.random() < 0.15:
+                    vals = vals[1:]             # grid starting after t0
+                if r.random() < 0.2:
+                    vals = vals + [Tk * 3, Tk * 10]    # far past the horizon of the raw calls (extinction / absorbing states)
+                st["time"] = {"kind": r.choice(["list", "tuple", "array"]), "values": [float(v) for v in vals]}
+        else:
+            st["time"] = SC.gen_scalar_time(r, Tk, kinds=("float", "float", "np_f64", "list1", "tuple1") + (("int", "np_i64", "list1_int") if Tk >= 0.5 else ()))
+    return plan
